@@ -786,6 +786,30 @@ def node_is_ghost(ctx):
     return True
 
 
+def copy_rejected(ctx):
+    """Callback::Emitter / Callback::Listener declare their copy constructor and assignment private and never define
+    them: objects cannot be copied, and the model has no copy operation.  Probe the current header with the
+    compiler: the four copies must be rejected (and the same snippet without a copy must compile)."""
+    import subprocess
+    head = "#include <nstd/Callback.hpp>\nvoid f(Callback::Listener& l, Callback::Listener& l2, Callback::Emitter& e, Callback::Emitter& e2)\n{\n%s\n}\n"
+    probes = {"control": "(void)l; (void)l2; (void)e; (void)e2;", "Listener(const Listener&)": "Callback::Listener c(l);",
+              "Listener::operator=": "l = l2;", "Emitter(const Emitter&)": "Callback::Emitter c(e);", "Emitter::operator=": "e = e2;"}
+    res = {}
+    for name, body in probes.items():
+        r = subprocess.run(["g++", "-std=gnu++11", "-fsyntax-only", "-I", str(C.REPO / "include"), "-x", "c++", "-"],
+                           input=head % body, capture_output=True, text=True)
+        res[name] = r.returncode == 0
+    ctx.cov["copy_probe"] = {k: ("compiles" if v else "rejected by the compiler") for k, v in res.items()}
+    if not res["control"]:
+        ctx.broken.append("copy probe: the control snippet including Callback.hpp does not compile")
+        return False
+    bad = [k for k, v in res.items() if v and k != "control"]
+    if bad:
+        ctx.broken.append("Callback objects can be copied now (" + ", ".join(bad) + "): the model has no copy operation")
+        return False
+    return True
+
+
 def check(ctx):
     ctx.assumptions += [
         "single-threaded use of Callback (the class has no synchronisation)",
@@ -794,6 +818,7 @@ def check(ctx):
     ]
     proof_ok = C.proof_stage(ctx, PROPS, [DRIVER], leanchecker=(ctx.tier == "thorough"))
     proof_ok = node_is_ghost(ctx) and proof_ok
+    proof_ok = copy_rejected(ctx) and proof_ok
     harness = C.build_harness(ctx, "callback", SOURCES)
     if harness is None or not C.driver_path(DRIVER).exists():
         return
